@@ -106,6 +106,23 @@ def stepBlock (e : Env) (b : BState) (n : Nat) : BState × Res :=
     let (b1, r) := accept e b n
     if r.isErr then (b1, r) else (flush e (b1.orphans.length + 2) b1 [n], r)
 
+/-- `BestChainHeaderForkHeight`: the fork point between the best chain and the best header chain -/
+def forkNode (e : Env) (s : BState) (h : HState) : Option Nat := Spec.lca e.P s.tip h.best
+
+/-- `ChainTips`: index nodes off the best chain without a child in the index, plus the best tip;
+    status 1 active, 2 invalid, 3 valid-fork (block stored), 0 unknown (header only);
+    third component = distance to the fork with the best chain -/
+def chainTips (e : Env) (depth : Nat → Nat) (nodes : List Nat) (b : BState) (h : HState) :
+    List (Nat × Nat × Nat) :=
+  let onBest (x : Nat) : Bool := (Spec.pathUp e.P b.tip).contains x
+  let idxNodes := nodes.filter (fun x => inIndex b h x)
+  let inactive := idxNodes.filter (fun x => !onBest x && !(idxNodes.any (fun c => e.P c == some x)))
+  (inactive ++ [b.tip]).map (fun x =>
+    let status := if onBest x then 1 else if b.knownInvalid x then 2
+                  else if b.data.contains x then 3 else 0
+    let fork := match Spec.lca e.P b.tip x with | some f => depth f | none => 0
+    (x, status, depth x - fork))
+
 inductive Op
   | header (n : Nat)
   | block (n : Nat)
